@@ -19,6 +19,9 @@ func init() {
 			"Each is a necessary mechanism of the exactly-once/FIFO/bounded/non-blocking behaviour; the behaviour over all interleavings itself (no loss/duplication, nothing stranded) is a schedule-reachability question and is not decided.",
 		Trusted: commonTrusted,
 		Run:     runC07,
+		Relies: []Dep{
+			{Prop: "C06", Rule: "*", Floor: 1, Why: "the overflow buffer of BufferedChannelQueue is a LinkedListQueue: FIFO and no-loss of the buffered queue rest on the deque"},
+		},
 	})
 }
 
